@@ -115,6 +115,20 @@ def write_with_refused_calls(program, segs):
 
         w.advance(op, kw)
 
+        # content calls that must be refused whatever the position: their
+        # own encoding must not stay behind on the open container
+        for bad in (['preamble', {'text': 'Résumé', 'encoding': 'ascii'}],
+                    ['meta', {'metadata': {'k': 1}, 'encoding': 'hex'}],
+                    ['preamble', {'text': '', 'encoding': X}],
+                    ['diff', {'content': b'', 'encoding': X}]):
+            try:
+                gen.call_writer(writer, bad[0], bad[1])
+            except Exception:
+                continue
+
+            return ('invalid-content-call-accepted',
+                    '%s%r accepted after %s' % (bad[0], bad[1], w.prev))
+
         for bad_op in ('change', 'file'):
             if not w.accepts(bad_op):
                 try:
